@@ -418,6 +418,21 @@ fn run(ctx: &mut Ctx) {
             }
         }
     }
+    // a counter over k names whose least fixed point needs 2^k rounds (k = 11: 2048 rounds)
+    for k in [2usize, 5, 9, 10, 11] {
+        idx += 1;
+        if ctx.mine(idx) {
+            let a = crate::textsem::counter_predecessor(k);
+            let text = refl::pp(&a, refl::MINIMAL);
+            if refl::parse(&text).as_ref() != Ok(&a) {
+                panic!("machinery: round trip failed for {text}");
+            }
+            ctx.count("many_round_fixed_points", 1);
+            if crate::textsem::check_text_big(ctx, TAG, &a, &text) {
+                ctx.distinct(&text);
+            }
+        }
+    }
     for map in 0..256usize {
         for start in 0..4usize {
             idx += 1;
